@@ -270,7 +270,12 @@ impl Mux {
                         length -= size;
                     }
                 }
-                _ => unreachable!("bad FrameKind"),
+                kind => {
+                    return Err(RunError::Protocol(anyhow::format_err!(
+                        "bad frame kind {:#b}",
+                        kind.0
+                    )))
+                }
             }
         }
     }
